@@ -9,5 +9,5 @@ for id in "$@"; do for m in a b; do
   suite42=$(echo "$v" | sed -n '/existing suite/,/demo with the mutant/p' | grep -c "42 passed")
   fails=$(echo "$v" | sed -n '/demo with the mutant/,$p' | grep -c "FAILED")
   echo "##### $id-$m verify: demo_passes_clean=$clean suite42=$suite42 demo_fails_mutant=$fails"
-  tools/try_patch.sh $d/$m.diff $id 2>&1 | cut -c1-300 | head -4
+  timeout 600 tools/try_patch.sh $d/$m.diff $id 2>&1 | cut -c1-300 | head -4
 done; done
